@@ -157,6 +157,9 @@ def run(tier: str) -> Run:
     afi2 = repo.func('atoms', 'Atom.for_isotope')
     weights, masses = tables['atomic_weights.csv'], tables['atomic_masses.csv']
     names = list(weights)[:: (1 if tier == 'thorough' else 3)] + list(masses)[:: (40 if tier == 'thorough' else 120)] + ['2H', '3He', '50V', 'Xx', '1Xx', '999H']
+    # isotopes of elements without a standard weight (blank weight column): a mass, but no weight
+    blank = [el for el, row in weights.items() if not row[1].strip()]
+    names += [next(n for n in masses if n.lstrip('0123456789') == el) for el in blank[:: (1 if tier == 'thorough' else 6)] if any(n.lstrip('0123456789') == el for n in masses)]
     T.reset()
     it = Interp(repo, AtomsModel(repo))
     problem = None
@@ -180,6 +183,15 @@ def run(tier: str) -> Run:
             problem = problem or (nm, {'z': a.get('z'), 'weight': scalar_of(a.get('_atomic_weight')), 'mass': scalar_of(a.get('_atomic_mass')),
                                        'expected': {'z': int(weights[el][0]), 'weight': want_w, 'mass': want_m}})
         else:
+            # what the public accessors hand out: the tabulated quantity, or a refusal where the table has none
+            for prop_, want_ in (('atomic_weight', want_w), ('atomic_mass', want_m)):
+                pfi_ = repo.func('atoms', f'Atom.{prop_}')
+                po = it.run_all(lambda i, g=got, f_=pfi_: i.call_function(f_, [], {}, bound=g))
+                if want_ is None:
+                    if not (len(po) == 1 and po[0].kind == 'raise' and po[0].exc_type == 'ValueError'):
+                        problem = problem or (nm, f'{prop_} is answered although the table has no value: {[(o.kind, scalar_of(o.value) if o.kind == "return" else o.exc_type) for o in po]}')
+                elif not (len(po) == 1 and po[0].kind == 'return' and scalar_of(po[0].value) == want_):
+                    problem = problem or (nm, f'{prop_}: {[(o.kind, scalar_of(o.value) if o.kind == "return" else o.exc_type) for o in po]}, tabulated {want_}')
             r5.ok(f'for_isotope({nm!r})')
     r5.check(problem is None, 'Atom.for_isotope', loc(afi2), {'name': problem[0], 'problem': problem[1]} if problem else {}, key='element-vs-isotope')
 
